@@ -51,12 +51,20 @@ func (t T) Get() int { host.Tick(); return t.n }`, `t := &T{}; for { t.Inc(); _ 
 var StoredB = func() { for { host.Tick(); <-BC } }`, `go StoredB(); for { host.Tick() }`, true},
 	{"stored-closure-sender", `var SC = make(chan int)
 var StoredS = func() { for { host.Tick(); SC <- 1 } }`, `go StoredS(); for { host.Tick() }`, true},
+	{"goroutine-defer-loop", `func DW() { for { func() { defer func() { host.Tick() }(); host.Tick() }() } }`, `go DW(); for { host.Tick() }`, true},
+	{"goroutine-host-callback", ``, `go func() { s := []int{5, 2, 8, 1, 9, 3}; for { sort.Slice(s, func(a, b int) bool { host.Tick(); return s[a] < s[b] }); s[0], s[5] = s[5], s[0] } }(); for { host.Tick() }`, false},
+	{"goroutine-deferred-closure-after-block", `func DB(c chan int) { defer func() { host.Tick(); host.Tick() }(); for { host.Tick(); <-c } }`, `c := make(chan int); go DB(c); for { host.Tick() }`, true},
 	{"method-value-go", `type W struct{ c chan int }
 func (w *W) Run() { for { host.Tick(); <-w.c } }`, `w := &W{c: make(chan int)}; f := w.Run; go f(); for { host.Tick() }`, true},
 }
 
 var c09Places = []string{"same", "earlier-eval", "earlier-ctx", "package"}
 var c09Entries = []string{"eval", "execute", "evalpath"}
+
+// programs with a go statement on a function value (literal, variable, method value): the goroutine
+// enters the interpreter through a function wrapper
+var c09StartsFuncValue = map[string]bool{"main-recv": true, "main-select": true, "main-range": true, "closure-blocker": true,
+	"closure-sender": true, "stored-closure-blocker": true, "stored-closure-sender": true, "goroutine-host-callback": true, "method-value-go": true}
 
 func c09Setup(p *c09Prog, place, entry string) *cancelSetup {
 	s := &cancelSetup{entry: entry}
@@ -148,6 +156,7 @@ func init() {
 	checks["C09"] = checkC09
 	core.ChildModes["c09"] = func(c *core.Case) *core.Result {
 		s := c09Setup(c09ByName(c.Params["prog"]), c.Params["place"], c.Params["entry"])
+		s.startWindow = c.Params["sw"] != ""
 		var pts []c09Point
 		klist := strings.Split(c.Params["ks"], ",")
 		for kj, ks := range klist {
@@ -227,6 +236,33 @@ func checkC09(r *core.Run) {
 		sort.Slice(ks, func(a, b int) bool { x, _ := strconv.Atoi(ks[a]); y, _ := strconv.Atoi(ks[b]); return x > y })
 		cases = append(cases, core.Case{ID: "C09/" + cb.prog + "/" + cb.place + "/" + cb.entry, Mode: "c09", TimeoutMs: 1200000,
 			Params: map[string]string{"prog": cb.prog, "place": cb.place, "entry": cb.entry, "ks": strings.Join(ks, ",")}})
+	}
+	// start-window cells: every goroutine started by a go statement on a function value is held between
+	// the go statement and its first operation, the context is cancelled, the goroutines of the evaluation
+	// end, and only then are the held goroutines released
+	swCombos := 0
+	for _, cb := range combos {
+		if !c09StartsFuncValue[cb.prog] {
+			continue
+		}
+		rg := core.NewRng(r.Seed).Sub("C09/sw/" + cb.prog + cb.place + cb.entry)
+		n := 2
+		if r.Thorough() {
+			n = 10
+		}
+		seen := map[int64]bool{}
+		var ks []string
+		for len(ks) < n {
+			k := int64(4 + rg.Intn(120))
+			if !seen[k] {
+				seen[k] = true
+				ks = append(ks, fmt.Sprint(k))
+			}
+		}
+		sort.Slice(ks, func(a, b int) bool { x, _ := strconv.Atoi(ks[a]); y, _ := strconv.Atoi(ks[b]); return x > y })
+		swCombos++
+		cases = append(cases, core.Case{ID: "C09/startwin/" + cb.prog + "/" + cb.place + "/" + cb.entry, Mode: "c09", TimeoutMs: 1200000,
+			Params: map[string]string{"prog": cb.prog, "place": cb.place, "entry": cb.entry, "ks": strings.Join(ks, ","), "sw": "1"}})
 	}
 	pool := newPool(r)
 	if r.Thorough() {
@@ -313,7 +349,7 @@ func checkC09(r *core.Run) {
 				}
 			}
 			nc := cases[ci]
-			nc.Params = map[string]string{"prog": nc.Params["prog"], "place": nc.Params["place"], "entry": nc.Params["entry"], "ks": rest}
+			nc.Params = map[string]string{"prog": nc.Params["prog"], "place": nc.Params["place"], "entry": nc.Params["entry"], "ks": rest, "sw": nc.Params["sw"]}
 			cases[ci].Params["ks"] = rest
 			more = append(more, nc)
 			idx = append(idx, ci)
@@ -351,6 +387,7 @@ func checkC09(r *core.Run) {
 		}
 	}
 	points, frozenTotal := 0, int64(0)
+	startsHeld := int64(0)
 	maxOps, maxTicks := 0, 0
 	finished := 0
 	for ci, res := range results {
@@ -449,11 +486,26 @@ func checkC09(r *core.Run) {
 				}
 				continue
 			}
+			if cases[ci].Params["sw"] != "" {
+				held := int64(0)
+				for _, pt := range pts {
+					held += pt.Res.StartsHeld
+				}
+				startsHeld += held
+				if held == 0 {
+					if phase == "run" {
+						r.Inconclusive(cell, "no goroutine start was held at any cancellation point")
+					}
+					continue
+				}
+			}
 			r.OkN(cell, conclusive)
 			r.Sample(map[string]any{"cell": cell, "points": conclusive})
 		}
 	}
 	r.Extra["combos"] = len(combos)
+	r.Extra["start_window_combos"] = swCombos
+	r.Extra["goroutine_starts_held_total"] = startsHeld
 	r.Extra["cancellation_points"] = points
 	r.Extra["goroutines_frozen_total"] = frozenTotal
 	r.Extra["max_post_cancel_ops_per_goroutine"] = maxOps
@@ -476,4 +528,26 @@ func firstLine(s string) string {
 		return s[:i]
 	}
 	return s
+}
+
+func init() {
+	// development aid: VERIF_C09_PROG/PLACE/ENTRY/K/N repeat one cancellation point
+	checks["c09debug"] = func(r *core.Run) {
+		p := c09ByName(os.Getenv("VERIF_C09_PROG"))
+		s := c09Setup(p, os.Getenv("VERIF_C09_PLACE"), os.Getenv("VERIF_C09_ENTRY"))
+		k, _ := strconv.ParseInt(os.Getenv("VERIF_C09_K"), 10, 64)
+		n, _ := strconv.Atoi(os.Getenv("VERIF_C09_N"))
+		s.startWindow = os.Getenv("VERIF_C09_SW") != ""
+		bad := 0
+		for i := 0; i < n; i++ {
+			res, err := runCancelAt(s, k)
+			if err != nil || res.MaxPostOps > 1 || res.MaxPostTicks > 1 || len(res.Leaked) > 0 || os.Getenv("VERIF_C09_SHOW") != "" {
+				bad++
+				b, _ := json.Marshal(res)
+				fmt.Printf("run %d: err=%v %s\n", i, err, b)
+			}
+		}
+		fmt.Printf("c09debug: %d/%d bad\n", bad, n)
+		r.Ok("C09/debug")
+	}
 }
